@@ -541,7 +541,7 @@ fn crashenum_case(seed: u64) -> (bft::Cfg, Vec<bft::Action>, bft::RunOpts) {
     (cfg, plan, bft::RunOpts::default())
 }
 
-fn bft_result(mode: &str, cfg: &bft::Cfg, out: &bft::RunOutcome) -> CaseResult {
+fn bft_result(mode: &str, cfg: &bft::Cfg, out: &bft::RunOutcome, case_seed: u64) -> CaseResult {
     let s = &out.stats;
     let faults_fired: u64 = s.faults.values().sum();
     let mut nontrivial = s.blocks_committed > 0 && (mode == "faultfree" || faults_fired > 0);
@@ -557,7 +557,7 @@ fn bft_result(mode: &str, cfg: &bft::Cfg, out: &bft::RunOutcome) -> CaseResult {
         }
     }
     CaseResult {
-        seed: cfg.seed,
+        seed: case_seed,
         mode: mode.to_string(),
         log_fp: s.log_fp,
         sched_fp: s.sched_fp,
@@ -591,7 +591,7 @@ pub fn run_case(engine: &str, mode: &str, seed: u64, keep_log: bool, focus: &str
             opts.keep_log = keep_log;
             opts.focus = if focus == "-" { None } else { Some(focus.to_string()) };
             let out = bft::run_one(&cfg, &plan, &opts);
-            bft_result(mode, &cfg, &out)
+            bft_result(mode, &cfg, &out, seed)
         }
         "prim" => crate::prim::run_case(mode, seed, keep_log).0,
         "pipe" => crate::pipes::run_case(mode, seed, keep_log).0,
@@ -606,7 +606,7 @@ pub fn run_case_logged(engine: &str, mode: &str, seed: u64) -> (CaseResult, Vec<
             let (cfg, plan, mut opts) = bft_case(mode, seed);
             opts.keep_log = true;
             let out = bft::run_one(&cfg, &plan, &opts);
-            (bft_result(mode, &cfg, &out), out.log)
+            (bft_result(mode, &cfg, &out, seed), out.log)
         }
         "prim" => crate::prim::run_case(mode, seed, true),
         "pipe" => crate::pipes::run_case(mode, seed, true),
@@ -669,7 +669,7 @@ pub fn replay_case(engine: &str, doc: &Value) -> (CaseResult, Vec<String>) {
                 ..Default::default()
             };
             let out = bft::run_one(&cfg, &plan, &opts);
-            (bft_result(mode, &cfg, &out), out.log)
+            (bft_result(mode, &cfg, &out, doc["seed"].as_u64().unwrap_or(cfg.seed)), out.log)
         }
         _ => panic!("unknown engine {engine}"),
     }
